@@ -180,7 +180,7 @@ func genGraphCase(r *rng, id string) *RobustCase {
 	victim := func() *js.Schema { return list[r.intn(len(list))] }
 	for n := 1 + r.intn(3); n > 0; n-- {
 		v := victim()
-		switch r.intn(16) {
+		switch r.intn(19) {
 		case 0:
 			v.AllOf = append(v.AllOf, nil)
 			desc = append(desc, "nil-in-allOf")
@@ -238,6 +238,48 @@ func genGraphCase(r *rng, id string) *RobustCase {
 		case 14:
 			v.Schema = pick(r, append([]string{"http://json-schema.org/draft-07/schema#", "x", "https://json-schema.org/draft/2019-09/schema"}, badURIs...))
 			desc = append(desc, "odd-$schema")
+		case 15:
+			// a bound that is not a JSON number (a Schema built in Go can hold one)
+			f := pick(r, []float64{math.Inf(1), math.Inf(-1), math.NaN()})
+			switch r.intn(5) {
+			case 0:
+				v.Minimum = &f
+			case 1:
+				v.Maximum = &f
+			case 2:
+				v.ExclusiveMinimum = &f
+			case 3:
+				v.ExclusiveMaximum = &f
+			default:
+				v.MultipleOf = &f
+			}
+			v.Type, v.Types = "", nil
+			desc = append(desc, "non-finite-bound")
+		case 16:
+			n := pick(r, []int{-1, -2147483648, 2147483647})
+			switch r.intn(6) {
+			case 0:
+				v.MinLength = &n
+			case 1:
+				v.MaxLength = &n
+			case 2:
+				v.MinItems = &n
+			case 3:
+				v.MaxContains = &n
+			case 4:
+				v.MinContains = &n
+				v.Contains = &js.Schema{}
+			default:
+				v.MaxProperties = &n
+			}
+			desc = append(desc, "odd-count")
+		case 17:
+			v.Default = json.RawMessage(pick(r, []string{"{", "", "1 2", "[1,", "nul", "\"\xff", "{\"a\":}"}))
+			if v.Properties == nil {
+				v.Properties = map[string]*js.Schema{}
+			}
+			v.Properties["a"] = &js.Schema{Default: json.RawMessage(pick(r, []string{"{", "", "tru", "1e", "[}"}))}
+			desc = append(desc, "malformed-default")
 		default:
 			v.DependencySchemas = map[string]*js.Schema{"k": nil}
 			v.DependencyStrings = map[string][]string{"k": {"a"}}
@@ -252,12 +294,13 @@ func genGraphCase(r *rng, id string) *RobustCase {
 		}
 	}
 	base := pick(r, []string{"", "", "http://x/root", "#frag", "%", "http://[::1", "relative/path", "urn:a:b"})
+	vd := r.chance(1, 3)
 	return &RobustCase{ID: id, Kind: "graph", Note: "nontrivial=1 shape=graph." + strings.Join(desc, "+"), run: func() []string {
 		var outs []string
 		var rs *js.Resolved
 		outs = append(outs, classify(func() error {
 			var err error
-			rs, err = s.Resolve(&js.ResolveOptions{BaseURI: base})
+			rs, err = s.Resolve(&js.ResolveOptions{BaseURI: base, ValidateDefaults: vd})
 			return err
 		}))
 		if rs != nil && !cyclic && inPlaceSafe(s) {
